@@ -9,6 +9,7 @@ import (
 	"runtime"
 	"sort"
 	"strings"
+	"sync"
 	"time"
 
 	"google.golang.org/grpc"
@@ -39,6 +40,7 @@ type triple struct {
 	keyField string
 	create   protoreflect.MethodDescriptor
 	del      protoreflect.MethodDescriptor
+	list     protoreflect.MethodDescriptor // the collection-wide unary ListXs RPC, if the service has one (a READ: see keyedSession.listAll)
 }
 
 // key identifies the triple of one row (server + configuration); signatures use the server's key (Row.key()).
@@ -157,6 +159,9 @@ func discover(row stackRow) ([]triple, string, error) {
 		if keyField != "" {
 			tr.create = ms.ByName(protoreflect.Name("Create" + x))
 			tr.del = ms.ByName(protoreflect.Name("Delete" + x))
+			if l := ms.ByName(protoreflect.Name("List" + x + "s")); l != nil && !l.IsStreamingServer() && !l.IsStreamingClient() {
+				tr.list = l
+			}
 		}
 		out = append(out, tr)
 	}
@@ -254,6 +259,30 @@ type pullStream struct {
 	// stream only by delivering its first message: until then an update may legitimately be missed.
 	established bool
 	lastSeen    proto.Message // the last message delivered (seed included)
+
+	// stalled: the client has stopped calling Recv (stall.go): the reader does not keep up, nothing is owed to it and
+	// nothing is read from it until it resumes
+	stalled bool
+	holdMu  sync.Mutex
+	hold    chan struct{}
+}
+
+// stall makes the stream's reader stop calling Recv (after the call it may be blocked in right now); resume lets it go on.
+func (st *pullStream) stall() {
+	st.holdMu.Lock()
+	defer st.holdMu.Unlock()
+	if st.hold == nil {
+		st.hold = make(chan struct{})
+	}
+}
+
+func (st *pullStream) resume() {
+	st.holdMu.Lock()
+	defer st.holdMu.Unlock()
+	if st.hold != nil {
+		close(st.hold)
+		st.hold = nil
+	}
 }
 
 type streamMsg struct {
@@ -289,6 +318,10 @@ type session struct {
 
 	noSeedWait    bool
 	createdByPoke bool
+	// bogusMasks: one update mask in ten names a field the resource does not have
+	bogusMasks bool
+	// noDrain: drain does nothing (expectations of two writes are queued before anything is read: window.go)
+	noDrain bool
 	// singleItem: payloads carry at most one element per repeated message field (see shape.go)
 	singleItem bool
 	// dense, when set, is the field density of generated payloads (default 0.5)
@@ -524,6 +557,16 @@ func (s *session) prepUpdate() (proto.Message, proto.Message, string) {
 	if um != nil && len(um.Paths) == 0 {
 		um = nil
 	}
+	if s.bogusMasks && s.r.Intn(10) == 0 {
+		// an update mask naming a field the resource does not have (alone, or next to valid paths): whatever the server
+		// answers, it is one register write or a rejected one
+		bogus := []string{"no_such_field", "no_such_field.x", string(s.t.resource.Fields().Get(0).Name()) + "_"}[s.r.Intn(3)]
+		if um == nil || s.r.Intn(2) == 0 {
+			um = &fieldmaskpb.FieldMask{Paths: []string{bogus}}
+		} else {
+			um = &fieldmaskpb.FieldMask{Paths: append(append([]string{}, um.Paths...), bogus)}
+		}
+	}
 	setMask(req, "update_mask", um)
 	op := fmt.Sprintf("Update%s(%s)", s.t.X, txt(req.Interface()))
 	reportProgress(progress{Sid: s.sid, Step: s.step, Op: op, Trace: tailTrace(s.trace, 12)})
@@ -599,8 +642,11 @@ func (s *session) recvOne(i int, m streamMsg) {
 // drain receives what the streams owe: every MUST entry is waited for (bounded); optional entries get
 // a short grace period. Messages that arrive although nothing is owed are read too.
 func (s *session) drain(wait bool) {
+	if s.noDrain {
+		return
+	}
 	for i, st := range s.streams {
-		if st.closed {
+		if st.closed || st.stalled {
 			continue
 		}
 		for {
@@ -707,6 +753,17 @@ func (s *session) openStream(mask *fieldmaskpb.FieldMask, uo bool, prep func(req
 	go func() {
 		defer close(st.ch)
 		for {
+			st.holdMu.Lock()
+			h := st.hold
+			st.holdMu.Unlock()
+			if h != nil {
+				// a client that has stopped reading its stream
+				select {
+				case <-h:
+				case <-ctx.Done():
+					return
+				}
+			}
 			var r []reflect.Value
 			if p, _ := lib.Catch(func() { r = recv.Call(nil) }); p {
 				return
@@ -849,6 +906,7 @@ func runSession(t triple, sid sessionID, mon *lib.Monitor) (lines, verdicts []st
 	s.client = reflect.ValueOf(cl)
 	s.pokes = pokeMethods(model, t.resource)
 	s.singleItem = sid.Seq%2 == 1
+	s.bogusMasks = sid.Seq%3 == 2
 	s.input = func(n int) any {
 		return map[string]any{"kind": "triple", "triple": sid.Triple, "seed": sid.Seed, "seq": sid.Seq, "steps": n, "trace": tailTrace(s.trace, 14)}
 	}
